@@ -12,10 +12,10 @@ PROPS["C06"] = {
             {"name": "server", "run": "^TestWholeServer$", "checks": 96, "shards": 16},
         ],
         "thorough": [
-            {"name": "split", "run": "^TestSplitPartition$", "checks": 800000, "shards": 12, "timeout": 1500},
-            {"name": "dispatch", "run": "^TestDispatchRoutesByPartIndex$", "checks": 120000, "shards": 4, "timeout": 1500},
-            {"name": "splitlarge", "run": "^TestSplitLargeBatch$", "checks": 16000, "shards": 16, "timeout": 1500},
-            {"name": "server", "run": "^TestWholeServer$", "checks": 6400, "shards": 16, "timeout": 1700},
+            {"name": "split", "run": "^TestSplitPartition$", "checks": 800000, "shards": 12, "timeout": 2400},
+            {"name": "dispatch", "run": "^TestDispatchRoutesByPartIndex$", "checks": 120000, "shards": 4, "timeout": 2400},
+            {"name": "splitlarge", "run": "^TestSplitLargeBatch$", "checks": 16000, "shards": 16, "timeout": 2400},
+            {"name": "server", "run": "^TestWholeServer$", "checks": 6400, "shards": 16, "timeout": 2400},
         ],
     },
     "assumptions": [
@@ -30,7 +30,7 @@ PROPS["C07"] = {
         "quick": [{"name": "probes", "kind": "plain", "run": "^TestProbe"},
                   {"name": "merge", "run": "^TestMergeArrangements$", "checks": 20000, "shards": 8}],
         "thorough": [{"name": "probes", "kind": "plain", "run": "^TestProbe"},
-                     {"name": "merge", "run": "^TestMergeArrangements$", "checks": 640000, "shards": 16, "timeout": 1700}],
+                     {"name": "merge", "run": "^TestMergeArrangements$", "checks": 640000, "shards": 16, "timeout": 2400}],
     },
     "assumptions": [
         "gauge ties: when several datapoints carry the newest timestamp any of their values is accepted",
@@ -53,12 +53,12 @@ PROPS["C02"] = {
         ],
         "thorough": [
             {"name": "corpus", "kind": "plain", "run": "^TestSeedCorpus$"},
-            {"name": "grammar", "run": "^TestGrammarLines$", "checks": 3200000, "shards": 6, "timeout": 1700},
-            {"name": "nearmiss", "run": "^TestNearMisses$", "checks": 3200000, "shards": 6, "timeout": 1700},
-            {"name": "arbitrary", "run": "^TestArbitraryStrings$", "checks": 1600000, "shards": 4, "timeout": 1700},
-            {"name": "tagbuf", "run": "^TestTagBufferIndependence$", "checks": 1600000, "shards": 4, "timeout": 1700},
-            {"name": "parser", "run": "^TestLinesThroughParser$", "checks": 800000, "shards": 4, "timeout": 1700},
-            {"name": "server", "run": "^TestLinesThroughServer$", "checks": 8000, "shards": 16, "timeout": 1700},
+            {"name": "grammar", "run": "^TestGrammarLines$", "checks": 3200000, "shards": 6, "timeout": 2400},
+            {"name": "nearmiss", "run": "^TestNearMisses$", "checks": 3200000, "shards": 6, "timeout": 2400},
+            {"name": "arbitrary", "run": "^TestArbitraryStrings$", "checks": 1600000, "shards": 4, "timeout": 2400},
+            {"name": "tagbuf", "run": "^TestTagBufferIndependence$", "checks": 1600000, "shards": 4, "timeout": 2400},
+            {"name": "parser", "run": "^TestLinesThroughParser$", "checks": 800000, "shards": 4, "timeout": 2400},
+            {"name": "server", "run": "^TestLinesThroughServer$", "checks": 8000, "shards": 16, "timeout": 2400},
             {"name": "fuzz", "kind": "fuzz", "fuzz": "FuzzLexImplications", "time": "240s", "timeout": 600},
         ],
     },
@@ -83,12 +83,12 @@ PROPS["C03"] = {
         ],
         "thorough": [
             {"name": "seeds", "kind": "plain", "run": "^(TestDatagramSeeds|TestHeaderBoundaryPairs)$"},
-            {"name": "lexer", "run": "^TestLexerNeverPanics$", "checks": 1600000, "shards": 5, "timeout": 1700},
-            {"name": "parser", "run": "^TestParserAccounting$", "checks": 400000, "shards": 6, "timeout": 1700},
-            {"name": "http", "run": "^TestHTTPIngestion$", "checks": 200000, "shards": 5, "timeout": 1700},
-            {"name": "wire", "run": "^TestHTTPWire$", "checks": 120000, "shards": 6, "timeout": 1700},
-            {"name": "udp", "run": "^TestUDPReceiver$", "checks": 120000, "shards": 6, "timeout": 1700},
-            {"name": "binary", "run": "^TestBinaryConfiguredIngestion$", "checks": 3200, "shards": 16, "binary": True, "shrinktime": "1s", "timeout": 1700},
+            {"name": "lexer", "run": "^TestLexerNeverPanics$", "checks": 1600000, "shards": 5, "timeout": 2400},
+            {"name": "parser", "run": "^TestParserAccounting$", "checks": 400000, "shards": 6, "timeout": 2400},
+            {"name": "http", "run": "^TestHTTPIngestion$", "checks": 200000, "shards": 5, "timeout": 2400},
+            {"name": "wire", "run": "^TestHTTPWire$", "checks": 120000, "shards": 6, "timeout": 2400},
+            {"name": "udp", "run": "^TestUDPReceiver$", "checks": 120000, "shards": 6, "timeout": 2400},
+            {"name": "binary", "run": "^TestBinaryConfiguredIngestion$", "checks": 3200, "shards": 16, "binary": True, "shrinktime": "1s", "timeout": 2400},
             {"name": "fuzz-datagram", "kind": "fuzz", "fuzz": "FuzzDatagram", "time": "180s", "timeout": 500},
             {"name": "fuzz-http-raw", "kind": "fuzz", "fuzz": "FuzzHTTPRaw", "time": "120s", "timeout": 500},
             {"name": "fuzz-http-event", "kind": "fuzz", "fuzz": "FuzzHTTPEvent", "time": "120s", "timeout": 500},
@@ -112,10 +112,10 @@ PROPS["C08"] = {
             {"name": "binary", "run": "^TestBinaryPercentThresholds$", "checks": 64, "shards": 16, "binary": True, "shrinktime": "1s"},
         ],
         "thorough": [
-            {"name": "stats", "run": "^TestTimerStatistics$", "checks": 1600000, "shards": 12, "timeout": 1700},
-            {"name": "hist", "run": "^TestHistograms$", "checks": 800000, "shards": 4, "timeout": 1700},
-            {"name": "intervals", "run": "^TestTimerIntervalsIndependent$", "checks": 800000, "shards": 8, "timeout": 1700},
-            {"name": "binary", "run": "^TestBinaryPercentThresholds$", "checks": 3200, "shards": 16, "binary": True, "shrinktime": "1s", "timeout": 1700},
+            {"name": "stats", "run": "^TestTimerStatistics$", "checks": 1600000, "shards": 12, "timeout": 2400},
+            {"name": "hist", "run": "^TestHistograms$", "checks": 800000, "shards": 4, "timeout": 2400},
+            {"name": "intervals", "run": "^TestTimerIntervalsIndependent$", "checks": 800000, "shards": 8, "timeout": 2400},
+            {"name": "binary", "run": "^TestBinaryPercentThresholds$", "checks": 3200, "shards": 16, "binary": True, "shrinktime": "1s", "timeout": 2400},
         ],
     },
     "assumptions": [
@@ -135,9 +135,9 @@ PROPS["C09"] = {
                   {"name": "binary", "run": "^TestBinary", "checks": 48, "shards": 16, "binary": True, "shrinktime": "1s"},
             {"name": "server", "run": "^TestWholeServer$", "checks": 96, "shards": 16},
         ],
-        "thorough": [{"name": "expiry", "run": "^TestExpiryHistories$", "checks": 1200000, "shards": 16, "steps": 60, "timeout": 1700},
-                     {"name": "binary", "run": "^TestBinary", "checks": 1600, "shards": 16, "binary": True, "shrinktime": "1s", "timeout": 1700},
-            {"name": "server", "run": "^TestWholeServer$", "checks": 6400, "shards": 16, "timeout": 1700},
+        "thorough": [{"name": "expiry", "run": "^TestExpiryHistories$", "checks": 1200000, "shards": 16, "steps": 60, "timeout": 2400},
+                     {"name": "binary", "run": "^TestBinary", "checks": 1600, "shards": 16, "binary": True, "shrinktime": "1s", "timeout": 2400},
+            {"name": "server", "run": "^TestWholeServer$", "checks": 6400, "shards": 16, "timeout": 2400},
         ],
     },
     "assumptions": [
@@ -154,8 +154,8 @@ PROPS["C04"] = {
     "jobs": {
         "quick": [{"name": "flush", "run": "^TestFlushNeverCrashes$", "checks": 1600, "shards": 8, "steps": 12},
                   {"name": "binary", "run": "^TestBinaryFlushSurvivesConfiguration$", "checks": 64, "shards": 16, "binary": True, "shrinktime": "1s"}],
-        "thorough": [{"name": "flush", "run": "^TestFlushNeverCrashes$", "checks": 160000, "shards": 16, "steps": 20, "timeout": 1700},
-                     {"name": "binary", "run": "^TestBinaryFlushSurvivesConfiguration$", "checks": 3200, "shards": 16, "binary": True, "shrinktime": "1s", "timeout": 1700}],
+        "thorough": [{"name": "flush", "run": "^TestFlushNeverCrashes$", "checks": 160000, "shards": 16, "steps": 20, "timeout": 2400},
+                     {"name": "binary", "run": "^TestBinaryFlushSurvivesConfiguration$", "checks": 3200, "shards": 16, "binary": True, "shrinktime": "1s", "timeout": 2400}],
     },
     "assumptions": [
         "binary jobs run the gostatsd command built from the working tree on the real clock over loopback UDP with the stdout backend; a command that never serves (its port was taken between probe and start) or a datagram that does not arrive excludes the case (counted in the evidence) and is never a violation; a command that exits after it had served is judged (a crash)",
@@ -171,9 +171,9 @@ PROPS["C05"] = {
         "quick": [{"name": "datagram", "run": "^TestDatagramLinesIndependent$", "checks": 24000, "shards": 12},
                   {"name": "udpqueue", "run": "^TestUDPQueuedDatagrams$", "checks": 1200, "shards": 4},
                   {"name": "binary", "run": "^TestBinaryIgnoreHost$", "checks": 64, "shards": 16, "binary": True, "shrinktime": "1s"}],
-        "thorough": [{"name": "datagram", "run": "^TestDatagramLinesIndependent$", "checks": 640000, "shards": 16, "timeout": 1700},
-                     {"name": "udpqueue", "run": "^TestUDPQueuedDatagrams$", "checks": 80000, "shards": 16, "timeout": 1700},
-                     {"name": "binary", "run": "^TestBinaryIgnoreHost$", "checks": 3200, "shards": 16, "binary": True, "shrinktime": "1s", "timeout": 1700}],
+        "thorough": [{"name": "datagram", "run": "^TestDatagramLinesIndependent$", "checks": 640000, "shards": 16, "timeout": 2400},
+                     {"name": "udpqueue", "run": "^TestUDPQueuedDatagrams$", "checks": 80000, "shards": 16, "timeout": 2400},
+                     {"name": "binary", "run": "^TestBinaryIgnoreHost$", "checks": 3200, "shards": 16, "binary": True, "shrinktime": "1s", "timeout": 2400}],
     },
     "assumptions": [
         "binary jobs run the gostatsd command built from the working tree on the real clock over loopback UDP with the stdout backend; a command that never serves (its port was taken between probe and start) or a datagram that does not arrive excludes the case (counted in the evidence) and is never a violation; a command that exits after it had served is judged (a crash)",
@@ -192,9 +192,9 @@ PROPS["C10"] = {
             {"name": "server", "run": "^TestWholeServer$", "checks": 96, "shards": 16},
         ],
         "thorough": [
-            {"name": "patterns", "run": "^TestPattern(Semantics|LongLived)$", "checks": 200000, "shards": 2, "timeout": 1700},
-            {"name": "stage", "run": "^TestTagStage$", "checks": 1000000, "shards": 14, "timeout": 1700},
-            {"name": "server", "run": "^TestWholeServer$", "checks": 6400, "shards": 16, "timeout": 1700},
+            {"name": "patterns", "run": "^TestPattern(Semantics|LongLived)$", "checks": 200000, "shards": 2, "timeout": 2400},
+            {"name": "stage", "run": "^TestTagStage$", "checks": 1000000, "shards": 14, "timeout": 2400},
+            {"name": "server", "run": "^TestWholeServer$", "checks": 6400, "shards": 16, "timeout": 2400},
         ],
     },
     "assumptions": [
@@ -214,11 +214,11 @@ PROPS["C18"] = {
             {"name": "binary", "run": "^TestBinaryAlignedFlush$", "checks": 32, "shards": 16, "binary": True, "shrinktime": "1s"},
         ],
         "thorough": [
-            {"name": "ticker", "run": "^TestAlignedTickerValues$", "checks": 160000, "shards": 8, "timeout": 1700},
-            {"name": "flusher", "run": "^TestAlignedFlusher$", "checks": 160000, "shards": 8, "timeout": 1700},
-            {"name": "jumps", "run": "^TestAlignedFlusherJumps$", "checks": 160000, "shards": 8, "timeout": 1700},
-            {"name": "realclock", "run": "^TestAlignedFlusherRealClock$", "checks": 8000, "shards": 16, "timeout": 1700},
-            {"name": "binary", "run": "^TestBinaryAlignedFlush$", "checks": 640, "shards": 16, "binary": True, "shrinktime": "1s", "timeout": 1700},
+            {"name": "ticker", "run": "^TestAlignedTickerValues$", "checks": 160000, "shards": 8, "timeout": 2400},
+            {"name": "flusher", "run": "^TestAlignedFlusher$", "checks": 160000, "shards": 8, "timeout": 2400},
+            {"name": "jumps", "run": "^TestAlignedFlusherJumps$", "checks": 160000, "shards": 8, "timeout": 2400},
+            {"name": "realclock", "run": "^TestAlignedFlusherRealClock$", "checks": 8000, "shards": 16, "timeout": 2400},
+            {"name": "binary", "run": "^TestBinaryAlignedFlush$", "checks": 640, "shards": 16, "binary": True, "shrinktime": "1s", "timeout": 2400},
         ],
     },
     "assumptions": [
@@ -236,12 +236,14 @@ PROPS["C14"] = {
             {"name": "roundtrip", "run": "^TestRoundTrip$", "checks": 9600, "shards": 8},
             {"name": "differential", "run": "^TestIngestDifferential$", "checks": 18000, "shards": 4},
             {"name": "server", "run": "^TestWholeServer$", "checks": 96, "shards": 16},
+            {"name": "overload", "run": "^TestBatchesWaitForARequestSlot$", "checks": 64, "shards": 16, "shrinktime": "1s"},
         ],
         "thorough": [
-            {"name": "roundtrip", "run": "^TestRoundTrip$", "checks": 320000, "shards": 10, "timeout": 1700},
-            {"name": "differential", "run": "^TestIngestDifferential$", "checks": 800000, "shards": 6, "timeout": 1700},
+            {"name": "roundtrip", "run": "^TestRoundTrip$", "checks": 320000, "shards": 10, "timeout": 2400},
+            {"name": "differential", "run": "^TestIngestDifferential$", "checks": 800000, "shards": 6, "timeout": 2400},
             {"name": "fuzz", "kind": "fuzz", "fuzz": "FuzzIngestBody", "time": "180s", "timeout": 500},
-            {"name": "server", "run": "^TestWholeServer$", "checks": 6400, "shards": 16, "timeout": 1700},
+            {"name": "server", "run": "^TestWholeServer$", "checks": 6400, "shards": 16, "timeout": 2400},
+            {"name": "overload", "run": "^TestBatchesWaitForARequestSlot$", "checks": 1600, "shards": 16, "shrinktime": "1s", "timeout": 2400},
         ],
     },
     "assumptions": [
@@ -262,11 +264,11 @@ PROPS["C01"] = {
             {"name": "ownsocket", "run": "^TestServerOwnSocket$", "checks": 48, "shards": 16},
         ],
         "thorough": [
-            {"name": "pipeline", "run": "^TestPipelineConservation$", "checks": 120000, "shards": 8, "timeout": 1700},
-            {"name": "pipeline-race", "run": "^TestPipelineConservation$", "checks": 16000, "shards": 4, "race": True, "timeout": 1700},
-            {"name": "history", "run": "^TestShardHistory$", "checks": 400000, "shards": 4, "steps": 60, "timeout": 1700},
-            {"name": "server", "run": "^TestWholeServer$", "checks": 6400, "shards": 16, "timeout": 1700},
-            {"name": "ownsocket", "run": "^TestServerOwnSocket$", "checks": 2400, "shards": 16, "timeout": 1700},
+            {"name": "pipeline", "run": "^TestPipelineConservation$", "checks": 120000, "shards": 8, "timeout": 2400},
+            {"name": "pipeline-race", "run": "^TestPipelineConservation$", "checks": 16000, "shards": 4, "race": True, "timeout": 2400},
+            {"name": "history", "run": "^TestShardHistory$", "checks": 400000, "shards": 4, "steps": 60, "timeout": 2400},
+            {"name": "server", "run": "^TestWholeServer$", "checks": 6400, "shards": 16, "timeout": 2400},
+            {"name": "ownsocket", "run": "^TestServerOwnSocket$", "checks": 2400, "shards": 16, "timeout": 2400},
         ],
     },
     "assumptions": [
@@ -284,8 +286,8 @@ PROPS["C11"] = {
         "quick": [{"name": "cloud", "run": "^TestCloudStageHistories$", "checks": 6400, "shards": 16, "steps": 25},
             {"name": "server", "run": "^TestWholeServer$", "checks": 96, "shards": 16},
         ],
-        "thorough": [{"name": "cloud", "run": "^TestCloudStageHistories$", "checks": 320000, "shards": 16, "steps": 40, "timeout": 1700},
-            {"name": "server", "run": "^TestWholeServer$", "checks": 6400, "shards": 16, "timeout": 1700},
+        "thorough": [{"name": "cloud", "run": "^TestCloudStageHistories$", "checks": 320000, "shards": 16, "steps": 40, "timeout": 2400},
+            {"name": "server", "run": "^TestWholeServer$", "checks": 6400, "shards": 16, "timeout": 2400},
         ],
     },
     "assumptions": [
@@ -301,8 +303,8 @@ PROPS["C12"] = {
     "jobs": {
         "quick": [{"name": "cache", "run": "^TestInstanceCacheHistories$", "checks": 400, "shards": 16, "steps": 14},
                   {"name": "slowconsumer", "run": "^TestSlowConsumer$", "checks": 480, "shards": 8}],
-        "thorough": [{"name": "cache", "run": "^TestInstanceCacheHistories$", "checks": 24000, "shards": 16, "steps": 25, "timeout": 1700},
-                     {"name": "slowconsumer", "run": "^TestSlowConsumer$", "checks": 32000, "shards": 16, "timeout": 1700}],
+        "thorough": [{"name": "cache", "run": "^TestInstanceCacheHistories$", "checks": 9600, "shards": 16, "steps": 25, "timeout": 2400},
+                     {"name": "slowconsumer", "run": "^TestSlowConsumer$", "checks": 32000, "shards": 16, "timeout": 2400}],
     },
     "assumptions": [
         "the implementation mixes time.Now() (entry expiry, last access) with the refresh ticker's time; tick values are real now + k*10 min while TTL (15 min), negative TTL (5 min) and idle period (25 min) are odd multiples of 5 min, so every comparison is decided with >= 5 min of margin against seconds of real drift; boundaries at equality and per-entry differences in idle age are therefore not explored",
@@ -318,10 +320,10 @@ PROPS["C13"] = {
                   {"name": "relist", "run": "^TestPodHistories$", "checks": 400, "shards": 16, "steps": 24, "env": {"C13_RELIST": "1"}},
                   {"name": "inflight", "run": "^TestLookupInFlightDuringEvent$", "checks": 1600, "shards": 8},
                   {"name": "fromconfig", "run": "^TestProviderFromConfiguration$", "checks": 160, "shards": 8}],
-        "thorough": [{"name": "pods", "run": "^TestPodHistories$", "checks": 128000, "shards": 16, "steps": 30, "timeout": 1700},
-                     {"name": "relist", "run": "^TestPodHistories$", "checks": 12000, "shards": 16, "steps": 24, "timeout": 1700, "env": {"C13_RELIST": "1"}},
-                     {"name": "inflight", "run": "^TestLookupInFlightDuringEvent$", "checks": 64000, "shards": 16, "timeout": 1700},
-                     {"name": "fromconfig", "run": "^TestProviderFromConfiguration$", "checks": 8000, "shards": 16, "timeout": 1700}],
+        "thorough": [{"name": "pods", "run": "^TestPodHistories$", "checks": 128000, "shards": 16, "steps": 30, "timeout": 2400},
+                     {"name": "relist", "run": "^TestPodHistories$", "checks": 12000, "shards": 16, "steps": 24, "timeout": 2400, "env": {"C13_RELIST": "1"}},
+                     {"name": "inflight", "run": "^TestLookupInFlightDuringEvent$", "checks": 64000, "shards": 16, "timeout": 2400},
+                     {"name": "fromconfig", "run": "^TestProviderFromConfiguration$", "checks": 8000, "shards": 16, "timeout": 2400}],
     },
     "assumptions": [
         "the history layers issue lookups only at quiescent points (after the sentinel barrier), which is what 'after any history has been observed' states; the window between the informer's index update and the provider's invalidation callback is not explored",
@@ -345,11 +347,11 @@ PROPS["C16"] = {
         ],
         "thorough": [
             {"name": "enumeration", "kind": "plain", "run": "^TestHTTPFaultEnumeration$", "shards": 8, "timeout": 2400},
-            {"name": "random", "run": "^TestHTTPFaultsRandom$", "checks": 32000, "shards": 4, "timeout": 1700},
-            {"name": "sender", "run": "^TestSenderFaults$", "checks": 3200, "shards": 16, "timeout": 1700},
-            {"name": "socket", "run": "^TestSocketBackends$", "checks": 32000, "shards": 8, "timeout": 1700},
-            {"name": "sharedtransport", "run": "^TestBackendsShareTransport$", "checks": 1600, "shards": 16, "shrinktime": "1s", "timeout": 1700},
-            {"name": "largepayload", "run": "^TestLargePayloadsKeepRequestSlots$", "checks": 1600, "shards": 16, "shrinktime": "1s", "timeout": 1700},
+            {"name": "random", "run": "^TestHTTPFaultsRandom$", "checks": 32000, "shards": 4, "timeout": 2400},
+            {"name": "sender", "run": "^TestSenderFaults$", "checks": 3200, "shards": 16, "timeout": 2400},
+            {"name": "socket", "run": "^TestSocketBackends$", "checks": 32000, "shards": 8, "timeout": 2400},
+            {"name": "sharedtransport", "run": "^TestBackendsShareTransport$", "checks": 1600, "shards": 16, "shrinktime": "1s", "timeout": 2400},
+            {"name": "largepayload", "run": "^TestLargePayloadsKeepRequestSlots$", "checks": 1600, "shards": 16, "shrinktime": "1s", "timeout": 2400},
         ],
     },
     "assumptions": [
@@ -373,11 +375,11 @@ PROPS["C17"] = {
         ],
         "thorough": [
             {"name": "probes", "kind": "plain", "run": "^TestProbe"},
-            {"name": "payloads", "run": "^TestPayloadsCarryEverySeriesOnce$", "checks": 64000, "shards": 10, "timeout": 1700},
-            {"name": "relay", "run": "^TestRelayRoundTrip$", "checks": 64000, "shards": 4, "timeout": 1700},
-            {"name": "relay-events", "run": "^TestRelayEvents$", "checks": 40000, "shards": 2, "timeout": 1700},
-            {"name": "relay-concurrent", "run": "^TestConcurrentRelayFlushes$", "checks": 20000, "shards": 8, "timeout": 1700},
-            {"name": "relay-concurrent-race", "run": "^TestConcurrentRelayFlushes$", "checks": 1500, "shards": 4, "race": True, "timeout": 1700},
+            {"name": "payloads", "run": "^TestPayloadsCarryEverySeriesOnce$", "checks": 64000, "shards": 10, "timeout": 2400},
+            {"name": "relay", "run": "^TestRelayRoundTrip$", "checks": 64000, "shards": 4, "timeout": 2400},
+            {"name": "relay-events", "run": "^TestRelayEvents$", "checks": 40000, "shards": 2, "timeout": 2400},
+            {"name": "relay-concurrent", "run": "^TestConcurrentRelayFlushes$", "checks": 20000, "shards": 8, "timeout": 2400},
+            {"name": "relay-concurrent-race", "run": "^TestConcurrentRelayFlushes$", "checks": 1500, "shards": 4, "race": True, "timeout": 2400},
         ],
     },
     "assumptions": [
@@ -399,9 +401,9 @@ PROPS["C15"] = {
         ],
         "thorough": [
             {"name": "probes", "kind": "plain", "run": "^TestProbe"},
-            {"name": "delivery", "run": "^TestForwarderDelivery$", "checks": 48000, "shards": 8, "timeout": 1700},
-            {"name": "delivery-race", "run": "^TestForwarderDelivery$", "checks": 4000, "shards": 4, "race": True, "timeout": 1700},
-            {"name": "faults", "run": "^TestForwarderDeliveryFaults$", "checks": 1600, "shards": 16, "timeout": 1700},
+            {"name": "delivery", "run": "^TestForwarderDelivery$", "checks": 48000, "shards": 8, "timeout": 2400},
+            {"name": "delivery-race", "run": "^TestForwarderDelivery$", "checks": 4000, "shards": 4, "race": True, "timeout": 2400},
+            {"name": "faults", "run": "^TestForwarderDeliveryFaults$", "checks": 1600, "shards": 16, "timeout": 2400},
         ],
     },
     "assumptions": [
@@ -425,11 +427,11 @@ PROPS["C19"] = {
         ],
         "thorough": [
             {"name": "probes", "kind": "plain", "run": "^TestProbe"},
-            {"name": "pipeline", "run": "^TestEventsThroughPipeline$", "checks": 160000, "shards": 8, "timeout": 1700},
-            {"name": "pipeline-race", "run": "^TestEventsThroughPipeline$", "checks": 8000, "shards": 4, "race": True, "timeout": 1700},
-            {"name": "gated", "run": "^TestWaitForEventsGated$", "checks": 16000, "shards": 8, "timeout": 1700},
-            {"name": "forwarder", "run": "^TestEventsForwarderMode$", "checks": 40000, "shards": 16, "timeout": 1700},
-            {"name": "server", "run": "^TestWholeServer$", "checks": 6400, "shards": 16, "timeout": 1700},
+            {"name": "pipeline", "run": "^TestEventsThroughPipeline$", "checks": 160000, "shards": 8, "timeout": 2400},
+            {"name": "pipeline-race", "run": "^TestEventsThroughPipeline$", "checks": 8000, "shards": 4, "race": True, "timeout": 2400},
+            {"name": "gated", "run": "^TestWaitForEventsGated$", "checks": 16000, "shards": 8, "timeout": 2400},
+            {"name": "forwarder", "run": "^TestEventsForwarderMode$", "checks": 40000, "shards": 16, "timeout": 2400},
+            {"name": "server", "run": "^TestWholeServer$", "checks": 6400, "shards": 16, "timeout": 2400},
         ],
     },
     "assumptions": [
@@ -450,9 +452,9 @@ PROPS["C20"] = {
             {"name": "startupkinds", "run": "^TestStartupFailureKinds$", "checks": 240, "shards": 4, "shrinktime": "1s"},
         ],
         "thorough": [
-            {"name": "ordering", "run": "^TestExtensionOrdering$", "checks": 3200, "shards": 16, "timeout": 1700},
-            {"name": "startup", "run": "^TestStartupFailure$", "checks": 400, "shards": 4, "timeout": 1700},
-            {"name": "startupkinds", "run": "^TestStartupFailureKinds$", "checks": 8000, "shards": 8, "timeout": 1700, "shrinktime": "1s"},
+            {"name": "ordering", "run": "^TestExtensionOrdering$", "checks": 3200, "shards": 16, "timeout": 2400},
+            {"name": "startup", "run": "^TestStartupFailure$", "checks": 400, "shards": 4, "timeout": 2400},
+            {"name": "startupkinds", "run": "^TestStartupFailureKinds$", "checks": 8000, "shards": 8, "timeout": 2400, "shrinktime": "1s"},
         ],
     },
     "assumptions": [
